@@ -62,6 +62,10 @@ def cases(tier: str, seed: int) -> list[dict]:
     for fam in HERMITE:
         out.append({"kind": "hermite", "et": fam})
         out.append({"kind": "hermite-evalpath", "et": fam})
+        out.append({"kind": "hermite-physical", "et": fam})
+    # every element type used one after the other in ONE process, in two orders: a table must not depend on which types were used before
+    out.append({"kind": "sequence", "et": "all-forward", "order": "forward"})
+    out.append({"kind": "sequence", "et": "all-reverse", "order": "reverse"})
     for i, c in enumerate(out):
         c["id"] = f"C06-{i:03d}-{c['kind']}-{c['et']}"
         c["index"] = i
@@ -100,7 +104,8 @@ def poly_diff_err(a: sp.Poly, b: sp.Poly) -> float:
 
 
 def run_case(case: dict, ctx: Ctx) -> None:
-    {"lagrange": run_lagrange, "evalpath": run_evalpath, "hermite": run_hermite, "hermite-evalpath": run_hermite_evalpath}[case["kind"]](case, ctx)
+    {"lagrange": run_lagrange, "evalpath": run_evalpath, "hermite": run_hermite, "hermite-evalpath": run_hermite_evalpath,
+     "hermite-physical": run_hermite_physical, "sequence": run_sequence}[case["kind"]](case, ctx)
 
 
 def run_lagrange(case, ctx):
@@ -251,6 +256,90 @@ def run_hermite(case, ctx):
         ctx.check("hermite-derivative", worst, COEF_TOL, key + f"/d{k}N", k=k)
     ctx.describe(f"hermite/{fam}", True, family=fam, functions=2 * nPe, degree=int(max(h.degree() for h in H)))
     ctx.event("expressions", 2 * nPe * 4)
+
+
+def run_sequence(case, ctx):
+    """All Lagrange types in one process: shapes of N .. ddddN tables and of their Gauss-point evaluations, and each table
+    still the derivative of the previous one at random points (central differences), whatever was used before."""
+    key = f"C06/sequence/{case['order']}"
+    ctx.default_key = key
+    ets = list(LAGRANGE) if case["order"] == "forward" else list(LAGRANGE)[::-1]
+    rng = np.random.default_rng(7)
+    for rnd in range(2):
+        for et in ets:
+            with ctx.monitored("no-exception", f"{key}/{et}/raised"):
+                g, loc = reference_group(et)
+                dim, nPe = g.dim, g.nPe
+                tabs = [g._N(), g._dN(), g._ddN(), g._dddN(), g._ddddN()]
+            shapes_ok = tabs[0].shape == (nPe, 1) and all(t.shape == (nPe, dim) for t in tabs[1:])
+            ctx.require("table-shapes", shapes_ok, f"{key}/{et}/table-shapes", shapes=[list(t.shape) for t in tabs], nPe=nPe, dim=dim, round=rnd)
+            if not shapes_ok:
+                continue
+            with ctx.monitored("no-exception", f"{key}/{et}/pg/raised"):
+                pg = [g.Get_N_pg(MatrixType.mass), g.Get_dN_pg(MatrixType.mass), g.Get_ddN_pg(MatrixType.mass), g.Get_dddN_pg(MatrixType.mass), g.Get_ddddN_pg(MatrixType.mass)]
+            nPg = g.Get_gauss(MatrixType.mass).nPg
+            ok = pg[0].shape == (nPg, 1, nPe) and all(p_.shape == (nPg, dim, nPe) for p_ in pg[1:])
+            ctx.require("table-shapes", ok, f"{key}/{et}/pg-shapes", shapes=[list(p_.shape) for p_ in pg], round=rnd)
+            # k-th table along axis d = derivative of the (k-1)-th along the same axis (pure derivatives d^k/dx_d^k)
+            pts = np.asarray(loc, float).mean(0) + rng.uniform(-0.05, 0.05, size=(3, dim))
+            h = 1e-4   # truncation h^2/6 times the third derivative ~ 3e-6 on the quartic triangle, round-off ~ 1e-10
+            worst = 0.0
+            for k in range(1, 5):
+                for d in range(dim):
+                    for i in range(nPe):
+                        for pt in pts:
+                            e = np.zeros(dim)
+                            e[d] = h
+                            prev = tabs[k - 1][i, 0 if k == 1 else d]
+                            fd = (prev(*(pt + e)) - prev(*(pt - e))) / (2 * h)
+                            worst = max(worst, abs(float(tabs[k][i, d](*pt)) - float(fd)))
+            ctx.check("sequence-derivative", worst, 1e-4, f"{key}/{et}/tables-consistent", round=rnd)
+    ctx.describe(f"sequence/{case['order']}", True, order=case["order"], types=len(ets))
+
+
+def run_hermite_physical(case, ctx):
+    """Physical Hermitian tables on elements of several lengths (none of them 1 or 2): with the nodal values and slopes of a
+    random polynomial of degree 2 nPe - 1 as dofs, N, dN, ddN, dddN reproduce the polynomial and its first three
+    x-derivatives at the integration points - the derivative consistency of the tables after the map to the element."""
+    fam = case["et"]
+    key = f"C06/{fam}/physical"
+    ctx.default_key = key
+    cls = getattr(EB, fam)
+    seg = "SEG" + fam[-1]
+    gmshId, nPe = GroupElemFactory.DICT_ELEMTYPE[ElemType(seg)][:2]
+    _, loc = reference_group(seg)
+    rng = np.random.default_rng([case.get("seed", 0), 6, nPe])
+    lengths = [0.37, 1.9, 3.3, float(rng.uniform(0.2, 5))]
+    coords, connect, x0 = [], [], float(rng.uniform(-1, 1))
+    for L in lengths:
+        base = len(coords)
+        for xi in loc[:, 0]:
+            coords.append([x0 + (xi + 1) / 2 * L, 0.0, 0.0])
+        connect.append(list(range(base, base + nPe)))
+        x0 += L
+    coords, connect = np.array(coords), np.array(connect)
+    deg = 2 * nPe - 1
+    c = rng.normal(size=deg + 1)
+    P = np.polynomial.Polynomial(c)
+    with ctx.monitored("no-exception", key + "/raised"):
+        g = cls(gmshId, connect, coords)
+        xi_g = np.asarray(g.Get_gauss(MatrixType.beam).coord, float)[:, 0]
+        tabs = [np.asarray(t, float) for t in (g.Get_Hermitian_N_e_pg(), g.Get_Hermitian_dN_e_pg(), g.Get_Hermitian_ddN_e_pg(), g.Get_Hermitian_dddN_e_pg())]
+    for k, tab in enumerate(tabs):
+        worst = 0.0
+        for e, L in enumerate(lengths):
+            xn = coords[connect[e], 0]
+            dofs = np.empty(2 * nPe)
+            dofs[0::2] = P(xn)
+            dofs[1::2] = P.deriv(1)(xn)
+            xg = xn[0] + (xi_g + 1) / 2 * L if abs(loc[0, 0] + 1) < 1e-12 else None
+            if xg is None:
+                xg = coords[connect[e], 0].min() + (xi_g + 1) / 2 * L
+            want = (P.deriv(k) if k else P)(xg)
+            got = tab[e, :, 0, :] @ dofs
+            worst = max(worst, float(np.abs(got - want).max() / (np.abs(want).max() + np.abs(c).max())))
+        ctx.check("hermite-physical-derivative", worst, 1e-10, key + f"/d{k}N", k=k, lengths=lengths)
+    ctx.describe(f"hermite-physical/{fam}", True, family=fam, lengths=lengths)
 
 
 def run_hermite_evalpath(case, ctx):
